@@ -66,9 +66,34 @@ def one(rng):
     return conn_case(B, 1, segs, scripts, rs, ws, rng.choice([0, 1])), tags
 
 
+def huge_abort_case(rng, P, pad, where):
+    """the AbortRequest record itself carries a maximum-size body and padding (content + padding > 65535), the buffer is larger than
+    64 KiB and the transport delivers everything in one read: the record is skipped in one step - by the request parser during Params,
+    or by the NEXT request parser (retained abort header) after the handler saw the abort; the following request must be served"""
+    B = rng.choice([70000, 131072])
+    rid = 1
+    ab = header(ABORT, rid, P, pad) + [rng.randrange(256) for _ in range(P)] + (flat([record(BEGIN, 5, [0, 1, 0, 0, 0, 0, 0, 0], 0)]) + [0] * pad)[:pad]
+    pre = minimal_preamble(rid, 1, flags=1)
+    if where == "params":
+        w = flat(pre[:-1]) + ab
+        scripts = [[("ret", 0, 0)]]
+    else:
+        w = flat(pre) + record(STDIN, rid, [1, 2, 3, 4, 5], 0) + ab
+        scripts = [[("read?", 64)] * 4 + [("ret", 0, 5)]]
+    w2, m2 = C07.gen_request(rng, 2, False, 64)
+    segs = [(0, 0, w), (0 if where == "params" else 1, 0, w2)]
+    scripts.append([("readall",), ("ret", 0, 7)])
+    if where == "params":
+        scripts = scripts[1:]
+    return conn_case(B, 1, segs, scripts, [], [], rng.choice([0, 1])), ["abort", where, "own", "propagate" if where != "params" else "none", "follow1", "huge-abort"]
+
+
 def gen_cases(rng, tier):
     for _ in range(1200 if tier == "quick" else 60000):
         yield one(rng)
+    for (P, pad) in ((65535, 255), (65281, 255), (65535, 1)):
+        for where in ("params", "stream"):
+            yield huge_abort_case(rng, P, pad, where)
 
 
 def nontrivial(line, tags):
@@ -76,7 +101,7 @@ def nontrivial(line, tags):
 
 
 def min_classes(tier):
-    return {"params": 150, "stream": 300, "foreign": 150, "follow1": 150, "follow2": 150, "past-eof": 100, "own-status": 100, "propagate": 150}
+    return {"params": 150, "stream": 300, "foreign": 150, "follow1": 150, "follow2": 150, "past-eof": 100, "own-status": 100, "propagate": 150, "huge-abort": 6}
 
 
 def oracle(line, impl_line):
